@@ -2,12 +2,15 @@ SPECIFICATION Spec
 CONSTANTS
   MaxDepth = 3
   MaxDefects = 4
+  MaxRenames = 1
+  MaxWithRename = 3
   Spares = {"none", "fresh", "twin"}
   Embeds = {"none", "genuine", "foreign"}
 INVARIANT Agree
 INVARIANT ReportsTarget
 INVARIANT OffPathIrrelevant
 INVARIANT NamesFirstBad
+INVARIANT NamesIrrelevant
 INVARIANT LoadErrorIffNoPath
 INVARIANT Bounded
 CHECK_DEADLOCK FALSE
